@@ -158,7 +158,20 @@ def n_array(a, dtype=None, *args, **k):
     return _np.array(a, *(() if dtype is None else (dtype,)), *args, **k)
 
 
-numpy_shim = Shim(_np, zeros=n_zeros, zeros_like=n_zeros_like, asarray=n_asarray, array=n_array)
+def n_round(a, decimals=0, out=None):
+    """np.round / np.around on an object array of proxies: element-wise numpy-style rounding (same uninterpreted
+    NPROUNDn as for scalars); `out=` keeps its in-place meaning."""
+    if isinstance(a, _np.ndarray) and _has_proxy(a):
+        res = out if out is not None else _np.empty(a.shape, dtype=object)
+        for idx in _np.ndindex(*a.shape):
+            res[idx] = ops.sround(a[idx], decimals, numpy_style=True) if isinstance(a[idx], SNum) else _np.round(a[idx], decimals)
+        return res
+    if out is not None:
+        return _np.round(a, decimals, out=out)
+    return _np.round(a, decimals)
+
+
+numpy_shim = Shim(_np, zeros=n_zeros, zeros_like=n_zeros_like, asarray=n_asarray, array=n_array, round=n_round, around=n_round)
 
 
 # ---- time -----------------------------------------------------------------------------
